@@ -187,6 +187,7 @@ func ruleSibling(p *Program, r *Result) {
 			pr := producers[0]
 			// under "a.Len() != sum": find the If dominating it
 			ok := false
+			var sumIfBlock *ssa.BasicBlock
 			for d := pr.Block(); d != nil; d = d.Idom() {
 				id := d.Idom()
 				if id == nil {
@@ -204,12 +205,30 @@ func ruleSibling(p *Program, r *Result) {
 					if f := call.Common().StaticCallee(); f != nil && f.Name() == "Len" && len(id.Succs[0].Preds) == 1 && (id.Succs[0] == pr.Block() || id.Succs[0].Dominates(pr.Block())) {
 						if sumOfLengthReads(bo.Y) {
 							ok = true
+							sumIfBlock = id
 						}
 					}
 				}
 			}
 			if !ok {
 				good, why = false, "the mismatch error is not raised by 'decoded size != sum of the length fields read'"
+			}
+			// no other error can be returned before the length-sum test, except by the minimum-size guard
+			// (a condition on len(input) alone): a wrong-key body that failed a content test first would
+			// not be counted by the detector
+			if ok && sumIfBlock != nil {
+				for _, b := range U.Blocks {
+					ret, isRet := b.Instrs[len(b.Instrs)-1].(*ssa.Return)
+					if !isRet || b == U.Recover || len(ret.Results) != 1 || isNilConst(ret.Results[0]) {
+						continue
+					}
+					if sumIfBlock == b || sumIfBlock.Dominates(b) {
+						continue
+					}
+					if !underInputLengthGuard(b, U) {
+						good, why = false, fmt.Sprintf("an error other than the mismatch error is returned at %s before the length-sum test and not by the minimum-size guard: a wrong-key body failing that test is not counted as a mismatch", p.Pos(ret.Pos()))
+					}
+				}
 			}
 			// precedes Validate
 			if V != nil {
@@ -434,4 +453,43 @@ func ruleBadSecretReply(p *Program, r *Result, typeVal map[string]int64) {
 	if !found {
 		r.undecided("R-SIBLING", "mismatch-reply-builder", "-", "UNRESOLVED: the function building the key-mismatch reply was not found")
 	}
+}
+
+
+// underInputLengthGuard: block b is reached only through the taken edge of a comparison between
+// len(<the input parameter>) and a constant (the decoder's minimum-size guard).
+func underInputLengthGuard(b *ssa.BasicBlock, fn *ssa.Function) bool {
+	for d := b; d != nil; d = d.Idom() {
+		id := d.Idom()
+		if id == nil {
+			return false
+		}
+		iff, ok := id.Instrs[len(id.Instrs)-1].(*ssa.If)
+		if !ok {
+			continue
+		}
+		bo, ok := iff.Cond.(*ssa.BinOp)
+		if !ok {
+			return false
+		}
+		isLenOfInput := func(v ssa.Value) bool {
+			c, ok := v.(*ssa.Call)
+			if !ok {
+				return false
+			}
+			bi, ok := c.Common().Value.(*ssa.Builtin)
+			if !ok || bi.Name() != "len" {
+				return false
+			}
+			a := c.Common().Args[0]
+			if len(fn.Params) < 2 {
+				return false
+			}
+			return a == ssa.Value(fn.Params[1])
+		}
+		_, cx := constInt(bo.X)
+		_, cy := constInt(bo.Y)
+		return (isLenOfInput(bo.X) && cy) || (isLenOfInput(bo.Y) && cx)
+	}
+	return false
 }
